@@ -713,6 +713,98 @@ Proof.
     + destruct (S5 i Hi) as [B1 B2]. split; [lia|exact B2].
 Qed.
 
+(* ---------------- monotonicity: terms never decrease; commit indexes only a crash resets ---------------- *)
+Definition K3 (nd x : node) : Prop := term nd <= term x /\ commit nd <= commit x.
+
+Lemma K3_refl nd : K3 nd nd. Proof. split; lia. Qed.
+
+Lemma h_rv_K3 self nd t c lli llt ok : K3 nd (fst (h_rv ru self nd t c lli llt ok)).
+Proof.
+  unfold h_rv, K3. destruct (N.ltb_spec (term nd) t) as [Hlt|Hge].
+  - cbn [step_down set_term_vote term]. rewrite N.eqb_refl.
+    destruct (last_info _) as [mli mlt]. match goal with |- context [if ?c then _ else _] => destruct c end; cbn; lia.
+  - destruct (N.eqb t (term nd)); [|cbn; lia].
+    destruct (last_info _) as [mli mlt]. match goal with |- context [if ?c then _ else _] => destruct c end; cbn; lia.
+Qed.
+Lemma h_rvr_K3 self nd from t g : K3 nd (h_rvr cfg self nd from t g).
+Proof.
+  unfold h_rvr, K3. destruct (rl nd); try lia.
+  destruct (N.ltb_spec (term nd) t); [cbn; lia|].
+  destruct (g && N.eqb t (term nd) && negb (memb from (votes nd))); [|lia].
+  destruct (N.leb (quorum cfg) (llen (votes nd ++ [from]))); cbn; lia.
+Qed.
+Lemma h_pvr_K3 self nd from t g : K3 nd (h_pvr cfg self nd from t g).
+Proof.
+  unfold h_pvr, K3. destruct (in_prevote nd); cbn [negb]; [|lia].
+  destruct (N.ltb_spec (term nd) t); [cbn; lia|].
+  destruct (g && N.eqb t (term nd) && negb (memb from (prevotes nd))); [|lia].
+  destruct (N.leb (quorum cfg) (llen (prevotes nd ++ [from]))); cbn; lia.
+Qed.
+Lemma try_advance_K3 y : K3 y (try_advance cfg ru y).
+Proof.
+  destruct (try_advance_shape y) as [_ [Xt [_ [_ [_ [_ Xc]]]]]]. unfold K3. rewrite Xt. split; [lia|].
+  destruct Xc as [->|[ls [e [_ [_ [Hlt _]]]]]]; lia.
+Qed.
+Lemma h_aer_K3 self nd from t succ mi : K3 nd (h_aer cfg ru self nd from t succ mi).
+Proof.
+  unfold h_aer. destruct (rl nd) eqn:Er; try apply K3_refl.
+  destruct (N.ltb_spec (term nd) t); [unfold K3; cbn; lia|].
+  destruct (stale_ack_ignored ru && N.ltb t (term nd)); [apply K3_refl|].
+  destruct (lvs nd) as [ls|]; [|apply K3_refl].
+  destruct succ; [|unfold K3; cbn; lia].
+  match goal with |- K3 _ (try_advance _ _ ?y) => pose proof (try_advance_K3 y) as [A B] end.
+  cbn [term commit] in A, B. split; assumption.
+Qed.
+Lemma h_ae_K3 self nd t ldr pi pt es lc : K3 nd (fst (h_ae ru self nd t ldr pi pt es lc)).
+Proof.
+  unfold h_ae, K3.
+  set (nd1 := if N.ltb (term nd) t then step_down nd t else nd).
+  assert (T1 : term nd <= term nd1) by (unfold nd1; destruct (N.ltb_spec (term nd) t); cbn; lia).
+  assert (C1 : commit nd1 = commit nd) by (unfold nd1; destruct (N.ltb (term nd) t); reflexivity).
+  destruct (N.eqb t (term nd1)); [|cbn [fst]; lia].
+  match goal with |- context [if ?c then _ else _] => destruct c end; cbn [fst term commit]; [|lia].
+  split; [lia|]. destruct (N.ltb_spec (commit nd1) lc) as [Hlt|]; [|lia].
+  destruct (commit_ok lc (commit nd1) pi (last_new pi es) (llen (append_entries (gap_refused ru) (base nd1) es (log nd1))) Hlt) as [A _]. lia.
+Qed.
+
+Theorem mono_step : forall s a o i, R cfg s a -> i < n_nodes cfg ->
+  let s' := fst (gstep cfg ru s o) in
+  term (nd_of s i) <= term (nd_of s' i) /\ (commit (nd_of s i) <= commit (nd_of s' i) \/ o = GRestart i).
+Proof.
+  intros s a o i HR Hi s'. subst s'.
+  assert (Stay : term (nd_of s i) <= term (nd_of s i) /\ (commit (nd_of s i) <= commit (nd_of s i) \/ o = GRestart i)) by (split; [lia|left; lia]).
+  assert (U : forall j x out, j < n_nodes cfg -> K3 (nd_of s j) x ->
+            term (nd_of s i) <= term (nd_of (upd_node s j x out) i) /\
+            (commit (nd_of s i) <= commit (nd_of (upd_node s j x out) i) \/ o = GRestart i)).
+  { intros j x out Hj [A B]. rewrite (nth_upd' s a) by assumption. destruct (N.eqb_spec i j) as [->|]; [split; [exact A|left; exact B]|exact Stay]. }
+  destruct o as [j|j|j|j|j p ok|k ok|j|j ok|j h|j]; cbn [gstep]; unfold valid_id.
+  - destruct (N.ltb_spec j (n_nodes cfg)); cbn [fst]; [|exact Stay]. apply U; auto. unfold K3, start_election; cbn; lia.
+  - destruct (N.ltb_spec j (n_nodes cfg)); cbn [fst]; [|exact Stay]. apply U; auto. unfold K3, start_pre_vote; cbn; lia.
+  - destruct (N.ltb_spec j (n_nodes cfg)); cbn [fst]; [|exact Stay]. destruct (rl (nd_of s j)); try exact Stay. apply U; auto. apply K3_refl.
+  - destruct (N.ltb_spec j (n_nodes cfg)); cbn [fst]; [|exact Stay]. apply U; auto. apply K3_refl.
+  - destruct (N.ltb_spec j (n_nodes cfg)); cbn [fst]; [|exact Stay]. apply U; auto.
+    unfold propose, K3. destruct (rl (nd_of s j)); try lia. destruct ok; cbn; lia.
+  - destruct (nth_error (pool s) (N.to_nat k)) as [[[src dst] m]|] eqn:Ek; cbn [fst]; [|exact Stay].
+    destruct (R_ids _ _ _ HR _ _ _ (nth_error_In _ _ Ek)) as [_ Hdst].
+    destruct (N.ltb_spec dst (n_nodes cfg)); cbn [fst]; [|exact Stay].
+    destruct m; cbn [deliver]; cbv zeta.
+    + pose proof (h_rv_K3 dst (nd_of s dst) t cand lli llt ok) as HK. destruct (h_rv _ _ _ _ _ _ _ _) as [nd' r]. apply U; auto.
+    + apply U; auto. apply h_rvr_K3.
+    + unfold h_pv. destruct (last_info _). apply U; auto. apply K3_refl.
+    + apply U; auto. apply h_pvr_K3.
+    + pose proof (h_ae_K3 dst (nd_of s dst) t ldr prev_i prev_t es lc) as HK. destruct (h_ae _ _ _ _ _ _ _ _ _) as [nd' r]. apply U; auto.
+    + apply U; auto. apply h_aer_K3.
+  - (* GRestart *)
+    destruct (N.ltb_spec j (n_nodes cfg)); cbn [fst]; [|exact Stay].
+    rewrite (nth_upd' s a) by assumption. destruct (N.eqb_spec i j) as [->|]; [|exact Stay].
+    split; [cbn; lia|right; reflexivity].
+  - destruct (N.ltb_spec j (n_nodes cfg)); cbn [fst]; [|exact Stay]. destruct ok; [|exact Stay]. apply U; auto. unfold K3, start_election; cbn; lia.
+  - destruct (N.ltb_spec j (n_nodes cfg)); cbn [fst]; [|exact Stay]. apply U; auto.
+    unfold finalize, K3. destruct (N.leb h (commit (nd_of s j))); cbn; lia.
+  - destruct (N.ltb_spec j (n_nodes cfg)); cbn [fst]; [|exact Stay]. apply U; auto.
+    unfold compact, K3. match goal with |- context [if ?c then _ else _] => destruct c end; cbn; lia.
+Qed.
+
 (* ---------------- runs ---------------- *)
 Definition SFI (s : sys) (gl : ledger) (a : Vote.sys) : Prop := FIa s gl a /\ SI s gl a.
 
@@ -882,6 +974,24 @@ Proof.
   pose proof (leader_in_ghost cfg s a c HR HI Hc Hl) as Hld.
   rewrite (lm_L3 _ _ _ _ HM c Hc Hl).
   apply (leader_completeness_inv cfg ru quorum_ok ack_ok s gl a HC t m HQ _ c Hld Ht).
+Qed.
+
+(* terms never decrease along a run; a commit index decreases only at a crash of that node *)
+Theorem terms_never_decrease : forall ops1 ops2 i, i < n_nodes cfg ->
+  term (nd_of (grun cfg ru ops1) i) <= term (nd_of (grun cfg ru (ops1 ++ ops2)) i).
+Proof.
+  intros ops1 ops2 i Hi. induction ops2 as [|o ops2 IH] using rev_ind; [rewrite app_nil_r; lia|].
+  rewrite app_assoc. destruct (sfi_run (ops1 ++ ops2)) as [gl [a [[HR _] _]]].
+  pose proof (mono_step _ a o i HR Hi) as [A _].
+  unfold grun in *. rewrite fold_left_app. cbn [fold_left]. unfold grun in IH. lia.
+Qed.
+
+Theorem commit_step_monotone : forall ops o i, i < n_nodes cfg ->
+  commit (nd_of (grun cfg ru ops) i) <= commit (nd_of (grun cfg ru (ops ++ [o])) i) \/ o = GRestart i.
+Proof.
+  intros ops o i Hi. destruct (sfi_run ops) as [gl [a [[HR _] _]]].
+  pose proof (mono_step _ a o i HR Hi) as [_ B].
+  unfold grun in *. rewrite fold_left_app. cbn [fold_left]. exact B.
 Qed.
 
 (* what a node has compacted away it had committed, and it still holds at least one entry *)
